@@ -12,7 +12,7 @@ PROPS="$*"
 if [ -z "$PROPS" ]; then PROPS=$(python3 -c "import json,sys; print(json.load(open('$D/meta.json'))['property'])"); fi
 if ! git -C /repo diff --quiet; then echo "run_seeded: /repo has uncommitted changes, refusing" >&2; exit 2; fi
 if ! git -C /repo apply "$D/patch.diff"; then echo "run_seeded: patch does not apply" >&2; exit 2; fi
-trap 'git -C /repo checkout -- . >/dev/null 2>&1' EXIT
+trap 'git -C /repo checkout -- . >/dev/null 2>&1; git -C /repo clean -fdq >/dev/null 2>&1' EXIT
 for p in $PROPS; do
   out=$(./check "$p" quick 2>&1); code=$?
   nviol=$(echo "$out" | grep -c '^VIOLATION')
